@@ -7,7 +7,7 @@ CONSTANTS
   MinL = 1
   MaxL = 4
   SC = 2
-  MaxOut = 2
+  MaxOut = 1
   MaxOpens = 3
   Jitter = TRUE
   Dynamic = TRUE
